@@ -138,8 +138,12 @@ def energy_from_tof(*, tof: Variable, Ltotal: Variable) -> Variable:
 
 def _energy_transfer_t0(energy, tof, length):
     dtype = _common_dtype(energy, tof)
-    c = as_float_type(_energy_constant(elem_unit(energy), tof, length), energy)
-    return length.astype(dtype, copy=False) * sc.sqrt(c / energy)
+    # Combine the constant with the length in double precision before reducing
+    # the precision. On its own, the constant is not representable in single
+    # precision for some units, e.g., energy in J and length in angstrom.
+    c = _energy_constant(elem_unit(energy), tof, length)
+    scale = (c * length**2).astype(dtype, copy=False)
+    return sc.sqrt(scale / energy)
 
 
 def energy_transfer_direct_from_tof(
